@@ -193,7 +193,8 @@ def pairs_c14(rec, b, s1, s2, onames, pnames, stride=1):
 
 def main():
     ap = argparse.ArgumentParser()
-    ap.add_argument('--mode', required=True, choices=['edges', 'paths2', 'walks', 'pairs'])
+    ap.add_argument('--mode', required=True, choices=['edges', 'paths2', 'walks', 'pairs', 'tlcwalks'])
+    ap.add_argument('--cases', default=None)
     ap.add_argument('--prop', default='C13')
     ap.add_argument('--universe', default='q22')
     ap.add_argument('--seed', type=int, default=0)
@@ -251,6 +252,26 @@ def main():
             if s['cells'] and len(stats['samples']) < 1:
                 stats['samples'].append({'state': s, 'first_calls': cs[:3]})
             stats['nontrivial'] += bool(s['objs'] and s['props'])
+    elif a.mode == 'tlcwalks':
+        # behaviours chosen by TLC (-simulate on DefSys.tla): replay the call sequence on one live object
+        with open(a.cases, encoding='utf-8') as cf:
+            for w, line in enumerate(cf):
+                if not mine(w):
+                    continue
+                hist = json.loads(line)
+                rec.reset(w)
+                for h, v in Q_OTHERS.items():
+                    rec.new(h, v)
+                rec.new(1, mk('', '', []))
+                n0 = stats['errors_seen']
+                for c in hist:
+                    if 'other' in c:
+                        c = dict(c, other=100 + c['other'])
+                    rec.op(1, c)
+                stats['behaviours'] += 1
+                stats['nontrivial'] += stats['errors_seen'] > n0
+                if not stats['samples']:
+                    stats['samples'].append({'tlc_simulated_history': hist})
     elif a.mode == 'walks':
         for w in range(a.count):
             if not mine(w):
